@@ -80,11 +80,13 @@ Race == /\ Is("race") /\ Adv
 \* C15: the draws of a check that ran alone, and of the same check sharing its generators with others
 \* (the shared draws come first -- process-wide caches must be first used concurrently -- the reference afterwards)
 Shared == /\ Is("shared") /\ Adv
-          /\ solo' = [x \in DOMAIN solo \cup {Ev.key} |-> IF x = Ev.key THEN Ev.draws ELSE solo[x]]
-          /\ viol' = viol \cup If(Ev.crashed, "shared_check_crashed")
+          /\ solo' = [x \in DOMAIN solo \cup {Ev.key} |-> IF x = Ev.key THEN [d |-> Ev.draws, c |-> Ev.crashed] ELSE solo[x]]
+          /\ viol' = viol
           /\ UNCHANGED <<scen, ctxs, regs, runs, sig, gfailed, open>>
+\* (a check that crashes in the same way when it runs alone -- e.g. a filter that finds nothing -- is the generator's own behaviour)
 Solo == /\ Is("solo") /\ Adv
-        /\ viol' = viol \cup If(Ev.key \in DOMAIN solo /\ solo[Ev.key] # Ev.draws /\ ~Ev.crashed, "draws_differ_when_shared")
+        /\ viol' = viol \cup If(Ev.key \in DOMAIN solo /\ solo[Ev.key].d # Ev.draws /\ ~Ev.crashed /\ ~solo[Ev.key].c, "draws_differ_when_shared")
+                        \cup If(Ev.key \in DOMAIN solo /\ solo[Ev.key].c /\ ~Ev.crashed, "shared_check_crashed")
         /\ UNCHANGED <<scen, ctxs, regs, runs, sig, gfailed, open, solo>>
 
 Handled == {"hang", "scen.begin", "scen.end", "h.once.begin", "inv.end", "ctx", "call", "failed.read", "cleanup.reg", "cleanup.run", "h.once.end", "race",
